@@ -152,6 +152,26 @@ def rule_table(ctx):
     from .common import canon_text
     ok = len(canc) == 1 and len(canc[0][1].args) == 1 and canon_text(om.fn, canc[0][1].args[0]) == "self._invocations[msg.request].on_reply" and \
         ("in", "msg.request", ("e", "self._invocations"), True) in mf.at(canc[0][0])
+    if not ok:
+        # another spelling of the lookup: the arm is evaluated (sa.core.tiny) with the id pending / not pending
+        from ..core.tiny import Tiny, Sym, OpenSym
+        from .c11 import _arm_body
+        try:
+            got = {}
+            for pending in (True, False):
+                fut, other = Sym("pending-result"), Sym("other-result")
+                cancelled = []
+                tab = {101: OpenSym("other-invocation", on_reply=other)}
+                if pending:
+                    tab[100] = OpenSym("invocation", on_reply=fut)
+                t = Tiny({"self": Sym("session"), "self._invocations": tab, "msg": OpenSym("interrupt", request=100), "self.log": Sym("log")},
+                         default_call=lambda f_, a_, k_=None: (cancelled.append(a_[0]) if f_ == "txaio.cancel" and a_ else None) or Sym(f"<{f_}>"), opaque_globals=True, model_strings=True)
+                r = t.run(_arm_body(om, "Interrupt"))
+                got[pending] = (r[0] != "raise", [c_ is fut for c_ in cancelled], 100 in t.env["self._invocations"], 101 in t.env["self._invocations"])
+            # ... and the invocation stays in the table: its terminal reply (the ERROR for the cancellation) is still to be sent by the continuation
+            ok = got[True] == (True, [True], True, True) and got[False] == (True, [], False, True)
+        except AnalysisError as e:
+            raise AnalysisError(f"[C10.3-invocation-table] INTERRUPT arm outside the modelled subset: {e}")
     ctx.ob("INTERRUPT cancels the pending result of the invocation with the same id", ok, "interrupt handling changed", om.fn.loc())
 
 
@@ -205,8 +225,8 @@ def rule_identity(ctx):
         # state shared by the closures: variables of the arm that progress() reads and that are initialised to an empty literal / constant
         free = {x.id for x in ast.walk(pf) if isinstance(x, ast.Name) and isinstance(x.ctx, ast.Load)}
         shared_init = {}
-        for st_ in ast.walk(ast.Module(body=_arm_stmts(om, "Invocation"), type_ignores=[])):
-            if isinstance(st_, ast.Assign) and len(st_.targets) == 1 and isinstance(st_.targets[0], ast.Name) and st_.targets[0].id in free:
+        for st_ in walk_no_defs(ast.Module(body=_arm_stmts(om, "Invocation"), type_ignores=[])):   # the arm's own statements: stores inside the closures are updates, not the initial value
+            if isinstance(st_, ast.Assign) and len(st_.targets) == 1 and isinstance(st_.targets[0], ast.Name) and st_.targets[0].id in free and st_.targets[0].id not in shared_init:
                 v_ = st_.value
                 if (isinstance(v_, (ast.List, ast.Dict, ast.Set)) and not getattr(v_, "elts", getattr(v_, "keys", []))) or isinstance(v_, ast.Constant):
                     shared_init[st_.targets[0].id] = v_
@@ -244,7 +264,12 @@ def rule_identity(ctx):
                 if history.startswith("after"):
                     c_ = conts[history.split()[1]]
                     t.env[c_.params()[0]] = Sym("result-or-failure", value=Sym("exception"))
+                    # scoping: a name the continuation assigns without declaring it `nonlocal` is its own local -- the shared variable keeps its value
+                    declared = {n_ for x in ast.walk(c_.node) if isinstance(x, ast.Nonlocal) for n_ in x.names}
+                    own = {x.id for x in walk_no_defs(c_.node) if isinstance(x, ast.Name) and isinstance(x.ctx, ast.Store)} - declared
+                    keep = {n_: t.env[n_] for n_ in own if n_ in shared_init and n_ in t.env}
                     r0 = t.run([x for x in c_.node.body if not (isinstance(x, ast.Expr) and isinstance(x.value, ast.Constant))])
+                    t.env.update(keep)
                     if r0[0] == "raise" or len(sent) != 1:
                         probs.append(f"{history}: the continuation itself gives {r0[0]} {str(r0[1])[:40]} and sends {len(sent)} message(s)")
                         continue
@@ -336,3 +361,7 @@ def run(ctx):
     rule_identity(ctx)
     from .common import rule_decorated_object
     rule_decorated_object(ctx, "C10.5-decorated-object-endpoints", "register", "_register", "is_endpoint", False)
+    # "a result exceeding the transport's size limit gets an ERROR": the limit the RawSocket send cells compare with is the one the peer announced --
+    # it has to be recorded from the handshake in every role and framework (rule shared with C13.1)
+    from .c13 import rule_handshake_tables
+    rule_handshake_tables(ctx, "C10.6-peer-limit-recorded-from-the-handshake")
